@@ -3,7 +3,7 @@
    implementation's wire bytes and is_connected() answers.  usage: drv_c11 cases.txt impl.txt
    Parsing and printing only; every decision is taken by extracted Coq functions. *)
 let nat = nat_of_int
-let cap = nat 65528          (* copy_chunked_async reads into buf[6..65534] *)
+let cap = nat (int_of_n src_chunk_read_hi - int_of_n src_chunk_read_lo)   (* the read window of copy_chunked_async, re-read from src/util.rs on every run (Generated/SourceParams.v) *)
 
 let strip_prefix p s =
   let lp = String.length p in
